@@ -9,6 +9,11 @@ def decode(string):
 validate_encoded = decode
 
 def validate_decoded(alignment):
+  if not isinstance(alignment, (gfapy.CIGAR, gfapy.Trace, gfapy.Placeholder)):
+    raise gfapy.TypeError(
+      "the class {} is incompatible with the datatype\n"
+      .format(alignment.__class__.__name__)+
+      "(accepted classes: gfapy.CIGAR, gfapy.Trace, gfapy.Placeholder)")
   alignment.validate()
 
 def unsafe_encode(obj):
